@@ -139,10 +139,13 @@ func RunList(c ListCase) harn.Result {
 		}
 		r := p9p.NewReaddir(p9p.NewCodec(), next)
 		rd = func(count int, offset int64) ([]byte, error) {
-			p := make([]byte, count)
+			p, intact := window(count)
 			n, err := r.Read(ctx, p, offset)
 			if n < 0 || n > count {
 				return nil, fmt.Errorf("Read returned n=%d for a %d-byte buffer", n, count)
+			}
+			if !intact() {
+				return nil, fmt.Errorf("Read wrote beyond the %d bytes it was asked for (the buffer was a window into a larger one)", count)
 			}
 			return p[:n], err
 		}
@@ -180,10 +183,13 @@ func RunList(c ListCase) harn.Result {
 			return harn.Fail("opening a directory fid failed: %v", err)
 		}
 		rd = func(count int, offset int64) ([]byte, error) {
-			p := make([]byte, count)
+			p, intact := window(count)
 			n, err := sess.Read(ctx, 2, p, offset)
 			if n < 0 || n > count {
 				return nil, fmt.Errorf("Read returned n=%d for a %d-byte buffer", n, count)
+			}
+			if !intact() {
+				return nil, fmt.Errorf("Read wrote beyond the %d bytes it was asked for (the buffer was a window into a larger one)", count)
 			}
 			return p[:n], err
 		}
@@ -191,6 +197,28 @@ func RunList(c ListCase) harn.Result {
 		return harn.Fail("HARNESS bad level")
 	}
 	return checkReads(c, encs, maxEnc, rd)
+}
+
+// window returns a buffer of count bytes that is, two times in three, a window into a larger
+// one (spare capacity behind it, as with pooled buffers): "at most the requested number of
+// bytes" is about len(p), and whatever lies behind it belongs to somebody else.
+func window(count int) (p []byte, intact func() bool) {
+	spare := 0
+	if count%3 != 0 {
+		spare = 1 + count%301
+	}
+	buf := make([]byte, count+spare)
+	for i := count; i < len(buf); i++ {
+		buf[i] = 0xA5
+	}
+	return buf[:count], func() bool {
+		for _, b := range buf[count:] {
+			if b != 0xA5 {
+				return false
+			}
+		}
+		return true
+	}
 }
 
 func checkReads(c ListCase, encs [][]byte, maxEnc int, rd reader) harn.Result {
